@@ -143,11 +143,11 @@ TDeliver ==
 TRet ==
   /\ Live /\ ~SilentEnabled /\ Ev.e = "ret"
   /\ IF call.c = 0 THEN Flag("HARNESS.return_without_call")
-     ELSE IF Ev.v = "raised" /\ call.v = "ok" THEN Flag("call_raised:" \o (IF work # <<>> THEN "pending" ELSE "clean"))
+     ELSE IF Ev.v = "raised" /\ call.v = "ok" THEN Flag("call_raised:" \o (IF work # <<>> THEN "pending" ELSE "clean") \o ":" \o lastop)
      ELSE IF work # <<>> THEN (IF Top.t = "send" THEN Flag("missing_delivery:" \o KindOf(Top.m) \o (IF Top.done = {} THEN ":none" ELSE ":some"))
                                ELSE Flag("serializer_not_called"))
      ELSE IF Ev.v # call.v
-          THEN (IF call.v = "ok" THEN Flag("call_raised:" \o Ev.v) ELSE Flag("exception_not_propagated:" \o Ev.v))
+          THEN (IF call.v = "ok" THEN Flag("call_raised:" \o Ev.v \o ":" \o lastop) ELSE Flag("exception_not_propagated:" \o Ev.v))
      ELSE IF Ev.cur # cur[call.c] THEN Flag("current_action_after:" \o lastop)
      ELSE Return /\ Step /\ UNCHANGED <<umap, lastop>>
 
